@@ -23,6 +23,8 @@ pub enum TAir {
     /// a + b = c declared row-local (`main_next_row_columns()` empty): the honest proof carries no
     /// `trace_next` opening for this instance (batch only; used by the C15 shape list).
     AddRl { rows: usize },
+    /// b = a * p0 + p1 with two periodic columns (periods 2 and 4); width 2.
+    Per { rows: usize },
 }
 
 fn lcg(state: &mut u64) -> u64 {
@@ -41,6 +43,7 @@ impl TAir {
             TAir::Sub { rows } => format!("sub-r{rows}"),
             TAir::Pv { rows } => format!("pv-r{rows}"),
             TAir::AddRl { rows } => format!("addrl-r{rows}"),
+            TAir::Per { rows } => format!("per-r{rows}"),
         }
     }
 
@@ -51,7 +54,8 @@ impl TAir {
             | TAir::Add { rows }
             | TAir::Sub { rows }
             | TAir::Pv { rows }
-            | TAir::AddRl { rows } => *rows,
+            | TAir::AddRl { rows }
+            | TAir::Per { rows } => *rows,
         }
     }
 
@@ -128,6 +132,16 @@ impl TAir {
                 let pv = v[0];
                 (RowMajorMatrix::new(v, 2), None, vec![pv])
             }
+            TAir::Per { rows } => {
+                let mut v = Vec::with_capacity(rows * 2);
+                for row in 0..rows {
+                    let a = V::from_usize(row + 7);
+                    let p0 = V::from_usize(1 + row % 2);
+                    let p1 = V::from_usize(3 + row % 4);
+                    v.extend([a, a * p0 + p1]);
+                }
+                (RowMajorMatrix::new(v, 2), None, vec![])
+            }
         }
     }
 }
@@ -146,6 +160,22 @@ impl<V: Field + PrimeField64> BaseAir<V> for TAir {
             TAir::Add { .. } | TAir::AddRl { .. } => 3,
             TAir::Sub { .. } => 2,
             TAir::Pv { .. } => 2,
+            TAir::Per { .. } => 2,
+        }
+    }
+    fn num_periodic_columns(&self) -> usize {
+        match *self {
+            TAir::Per { .. } => 2,
+            _ => 0,
+        }
+    }
+    fn periodic_columns(&self) -> Vec<Vec<V>> {
+        match *self {
+            TAir::Per { .. } => vec![
+                vec![V::from_usize(1), V::from_usize(2)],
+                vec![V::from_usize(3), V::from_usize(4), V::from_usize(5), V::from_usize(6)],
+            ],
+            _ => vec![],
         }
     }
     fn preprocessed_width(&self) -> usize {
@@ -246,6 +276,13 @@ where
                 let l = main.current_slice().to_vec();
                 let pi0 = builder.public_values()[0];
                 builder.when_first_row().assert_eq(l[0], pi0);
+            }
+            TAir::Per { .. } => {
+                let main = builder.main();
+                let l = main.current_slice().to_vec();
+                let p0: AB::Expr = builder.periodic_values()[0].into();
+                let p1: AB::Expr = builder.periodic_values()[1].into();
+                builder.assert_zero(l[0].into() * p0 + p1 - l[1].into());
             }
         }
     }
